@@ -2071,7 +2071,7 @@ Qed.
 Lemma invoke_unfold : forall cfg b du st s p,
   invoke cfg b du st s p =
   match shallow_missing st s (sig_leaves (ii_sig p)) with
-  | _ :: _ as ks => (VErr (mkErr [LMissingDeps] (RMissing ks)), st)
+  | (_ :: _) as ks => (VErr (mkErr [LMissingDeps] (RMissing ks)), st)
   | [] =>
       if s_verified (get_scope st s) then invoke_tail cfg b du s p st
       else match is_acyclic (scope_graph st s) with
